@@ -146,4 +146,133 @@ def run(E: Engine, rep: Report, tier: str) -> dict:
             kws = {k.arg: norm(k.value) for k in n.keywords}
     rep.check(kws.get("p_false_pos", "").endswith(".p_false_pos") and kws.get("p_false_neg", "").endswith(".p_false_neg"), "SIB", "BitStrings.apply|rates-by-keyword", "p_false_pos/p_false_neg passed by keyword from the noise model", f"BitStrings.apply passes {kws}", E.where(bs))
     rep.floor("SIB", 5)
-    return {"string_vs_array_comparisons": n_cmp}
+
+    # ------------------------------------------------- SIB: the unflipped sample is returned only when no bit can flip
+    def zero_rates(conj) -> set:
+        out = set()
+        for l in conj:
+            if l.atom is None or l.atom.rel != "Eq":
+                continue
+            try:
+                c = ast.parse(l.text, mode="eval").body
+            except SyntaxError:
+                continue
+            if not (isinstance(c, ast.Compare) and len(c.ops) == 1):
+                continue
+            for a, b in ((c.left, c.comparators[0]), (c.comparators[0], c.left)):
+                if isinstance(b, ast.Constant) and isinstance(b.value, (int, float)) and not isinstance(b.value, bool) and b.value == 0:
+                    out.add(rate_name_of(a))
+        return out
+
+    def rate_name_of(e: ast.AST) -> str:
+        if isinstance(e, ast.Subscript) and isinstance(e.slice, ast.Constant):
+            return str(e.slice.value)
+        if isinstance(e, ast.Attribute):
+            return e.attr
+        if isinstance(e, ast.Name):
+            return e.id
+        return norm(e)
+
+    for f, neg, pos in ((s1, "epsilon_prime", "epsilon"), (s2, "p_false_neg", "p_false_pos")):
+        flip = [n for n in own_nodes(f) if isinstance(n, ast.Call) and (dotted(n.func) or "").endswith("where") and len(n.args) == 3]
+        if not flip:
+            continue  # reported above
+        first = min(n.lineno for n in flip)
+        ab = abstractor(E.flow(f))
+        early = [r for r in returns(f) if r.lineno < first]
+        for r in early:
+            dnf = ab.enclosing_conditions(r)
+            bad = None
+            for conj in dnf:
+                none_guard = any((" is None" in l.text and "meas_errors" in l.text and (l.atom is not None and l.atom.rel == "Is")) for l in conj)
+                if none_guard:
+                    continue
+                z = zero_rates(conj)
+                if not {neg, pos} <= z:
+                    bad = " and ".join(l.show() if l.atom is None else l.text for l in conj) or "<unconditional>"
+                    break
+            rep.check(bad is None, "SIB", f"{f.short}|unflipped-return-needs-both-rates-zero", f"`{norm(r)[:60]}` (before the flip) is reached only when {neg} == 0 and {pos} == 0 (or no detection errors are configured)",
+                      f"{f.short}: the sample is returned without flipping any bit on the path [{bad}] -- that does not imply both {pos} == 0 and {neg} == 0, so a configured detection error is silently ignored", E.where(f, r))
+    rep.floor("SIB", 7)
+
+    # ------------------------------------------------- WEIGHT: Monte-Carlo accumulation weights every run by its multiplicity
+    n_w = 0
+    for f in P.all_functions():
+        if not f.module.name.startswith("pulser_simulation"):
+            continue
+        for loop in own_nodes(f):
+            if not (isinstance(loop, ast.For) and isinstance(loop.iter, ast.Call) and (dotted(loop.iter.func) or "").endswith("_noisy_runs") and isinstance(loop.target, ast.Tuple) and len(loop.target.elts) == 2 and isinstance(loop.target.elts[1], ast.Name)):
+                continue
+            reps = loop.target.elts[1].id
+            body_nodes = [n for st in loop.body for n in ast.walk(st)]
+            local_defs: dict[str, list[ast.AST]] = {}
+            for n in body_nodes:
+                if isinstance(n, ast.Assign) and len(n.targets) == 1 and isinstance(n.targets[0], ast.Name):
+                    local_defs.setdefault(n.targets[0].id, []).append(n.value)
+
+            def alternatives(e: ast.AST, depth: int = 0) -> list[ast.AST]:
+                if isinstance(e, ast.Name) and e.id in local_defs and depth < 4:
+                    return [a for v in local_defs[e.id] for a in alternatives(v, depth + 1)]
+                return [e]
+
+            totals = []
+            for n in body_nodes:
+                if not (isinstance(n, ast.AugAssign) and isinstance(n.op, ast.Add)):
+                    continue
+                if isinstance(n.value, ast.Name) and n.value.id == reps and isinstance(n.target, ast.Name):
+                    totals.append(n.target.id)
+                    continue
+                n_w += 1
+                alts = alternatives(n.value)
+                miss = [a for a in alts if not any(isinstance(x, ast.Name) and x.id == reps for x in ast.walk(a))]
+                rep.check(not miss, "WEIGHT", f"{f.short}|{norm(n.target)}|every-term-weighted-by-{reps}", f"`{norm(n)[:70]}`: every accumulated term carries the multiplicity `{reps}` of the run",
+                          f"{f.short}: `{norm(n.target)} += ...` accumulates `{norm(miss[0])[:60] if miss else ''}` without the multiplicity `{reps}` yielded by _noisy_runs -- identical initial configurations are run once and must count `{reps}` times in the average", E.where(f, n))
+            for tname in totals:
+                n_w += 1
+                div = [x for x in own_nodes(f) if isinstance(x, ast.BinOp) and isinstance(x.op, ast.Div) and isinstance(x.right, ast.Name) and x.right.id == tname]
+                rep.check(bool(div), "WEIGHT", f"{f.short}|normalised-by-{tname}", f"the accumulated sum is divided by `{tname}` (= sum of `{reps}`)", f"{f.short}: `{tname}` accumulates the multiplicities but the accumulated states are never divided by it", E.where(f, loop))
+    rep.floor("WEIGHT", 3)
+
+    # ------------------------------------------------- SUFFIX: basis names that may carry "_with_error" are never tested by equality
+    res_base = P.cls("pulser_simulation.simresults.SimulationResults")
+    scopes = []
+    for c in P.classes.values():
+        if c.module.name == "pulser_simulation.simresults" and c is not res_base and res_base in P.mro(c):
+            init = c.methods.get("__init__")
+            raw = False
+            for i in init or []:
+                for n in own_nodes(i):
+                    if isinstance(n, ast.Call) and norm(n.func) == "super().__init__" and any(isinstance(a, ast.Name) and a.id == "basis_name" for a in n.args):
+                        raw = True
+            if raw:
+                scopes += [m for ms in c.methods.values() for m in ms]
+    for cn in ("pulser_simulation.simulation.QutipEmulator", "pulser_simulation.hamiltonian.Hamiltonian", "pulser_simulation.qutip_result.QutipResult"):
+        scopes += [m for ms in P.cls(cn).methods.values() for m in ms]
+    if not any(m.cls.name == "CoherentResults" for m in scopes):
+        raise AnalysisError("anchor: CoherentResults no longer forwards its raw basis_name to SimulationResults.__init__")
+    BASES = {"ground-rydberg", "digital", "XY", "all"}
+    n_sfx = 0
+    for m in scopes:
+        for n in own_nodes(m):
+            if not (isinstance(n, ast.Compare) and len(n.ops) == 1):
+                continue
+            l, r = n.left, n.comparators[0]
+            def is_bn(e):
+                d = dotted(e) or ""
+                return d.split(".")[-1] in ("basis_name", "_basis_name")
+            def lits(e):
+                if isinstance(e, ast.Constant) and isinstance(e.value, str):
+                    return [e.value]
+                if isinstance(e, (ast.List, ast.Set, ast.Tuple)) and e.elts and all(isinstance(x, ast.Constant) and isinstance(x.value, str) for x in e.elts):
+                    return [x.value for x in e.elts]
+                return None
+            if not ((is_bn(l) and lits(r) is not None) or (is_bn(r) and lits(l) is not None)):
+                continue
+            n_sfx += 1
+            op = n.ops[0]
+            exact = isinstance(op, (ast.Eq, ast.NotEq)) or (isinstance(op, (ast.In, ast.NotIn)) and is_bn(l) and not isinstance(r, ast.Constant))
+            values = lits(r) if is_bn(l) else lits(l)
+            bad = exact and any(v in BASES for v in values or [])
+            rep.check(not bad, "SUFFIX", f"{m.short}|{norm(n)}", f"`{norm(n)}` is a substring test", f"{m.short}: `{norm(n)}` tests a basis name for equality, but here the name may carry the '_with_error' suffix (leakage) -- 'ground-rydberg_with_error' would take the other branch; use a substring test or strip the suffix first", E.where(m, n))
+    rep.floor("SUFFIX", 4)
+    return {"string_vs_array_comparisons": n_cmp, "accumulations": n_w, "basis_name_tests": n_sfx}
